@@ -332,6 +332,38 @@ impl Prop for C18 {
                 }
             }
         }
+        // the optional bundle itself: its tree is the tree it was given, also after a move
+        let t4 = tree.clone();
+        let want_sexp = tree.root_node().to_sexp();
+        let opt_bundle = catch(move || {
+            let b = ParseError::into_first(t4);
+            let s1 = b.tree().root_node().to_sexp();
+            let h = std::thread::spawn(move || {
+                let s2 = b.tree().root_node().to_sexp();
+                let e = b.error().as_ref().map(describe);
+                (b, s2, e)
+            });
+            let (b, s2, e) = h.join().expect("thread");
+            let tr = b.into_tree();
+            let s3 = tr.root_node().to_sexp();
+            let again = ParseError::first(&tr).map(|e| describe(&e));
+            (s1, s2, s3, e, again)
+        });
+        out.eval();
+        match opt_bundle {
+            Err(p) => {
+                out.violation("C18:into_first-panic", &format!("{}: {}", p.location, p.message), case);
+                return;
+            }
+            Ok((s1, s2, s3, e, again)) => {
+                let w = want.first().cloned();
+                if s1 != want_sexp || s2 != want_sexp || s3 != want_sexp || e != w || again != w {
+                    out.violation("C18:into_first-differs", &format!("the optional bundle's tree or error changed across a move: {:?} {:?}", e, again), case);
+                    return;
+                }
+                out.feat("optional_bundle_tree_checked");
+            }
+        }
         // evidence
         out.feat(if want.is_empty() { "error_free_tree" } else { "tree_with_errors" });
         out.feat_n("errors_reported", want.len() as u64);
